@@ -550,3 +550,74 @@ pub open spec fn final_offsets(w: Mp4TrackWriter, pos: u64) -> Seq<u64> {
 }
 
 pub open spec fn offsets_fit_u32(o: Seq<u64>) -> bool { forall|i: int| 0 <= i < o.len() ==> #[trigger] o[i] <= 0xffff_ffff }
+
+// ---- hand-written counterparts of is_default_X for the structs whose Default impl is real code (proved by the impl's contract)
+pub open spec fn is_manual_default_TkhdBox(v: TkhdBox) -> bool { v.version == 0 && v.duration == 0 && v.track_id == 0 && v.flags == 1 }
+pub open spec fn is_manual_default_MdhdBox(v: MdhdBox) -> bool { v.version == 0 && v.flags == 0 && v.duration == 0 && v.timescale == 1000 }
+pub open spec fn is_manual_default_MvhdBox(v: MvhdBox) -> bool { v.version == 0 && v.flags == 0 && v.duration == 0 && v.timescale == 1000 && v.next_track_id == 1 }
+
+// ---------------------------------------------------------------- the movie writer
+pub open spec fn mw_tracks_ok<W>(m: Mp4Writer<W>) -> bool {
+    forall|i: int| 0 <= i < m.tracks@.len() ==> tw_wf(#[trigger] m.tracks@[i]) && m.tracks@[i].trak.tkhd.track_id == i + 1
+        && m.tracks@[i].trak.tkhd.duration == movie_ticks(m.tracks@[i].trak.mdia.mdhd.duration, m.timescale, m.tracks@[i].trak.mdia.mdhd.timescale)
+}
+
+/// movie duration = longest track (C02), in movie ticks
+pub open spec fn mw_duration_ok<W>(m: Mp4Writer<W>) -> bool {
+    &&& forall|i: int| 0 <= i < m.tracks@.len() ==> (#[trigger] m.tracks@[i]).trak.tkhd.duration <= m.duration
+    &&& (m.duration == 0 || exists|i: int| 0 <= i < m.tracks@.len() && (#[trigger] m.tracks@[i]).trak.tkhd.duration == m.duration)
+}
+
+pub open spec fn mw_wf<W: Stream>(m: Mp4Writer<W>) -> bool {
+    &&& mw_tracks_ok(m)
+    &&& mw_duration_ok(m)
+    &&& m.tracks@.len() < 0xffff_ffff
+    // the media-data header (and the 8 bytes reserved after it for a 64-bit size) lie before the write position
+    &&& m.mdat_pos + 16 <= m.writer.pos()
+    &&& m.writer.pos() <= m.writer.data().len()
+}
+
+/// bytes of the two placeholder headers written by write_start: 'mdat' of size 8 followed by 'wide' of size 8 (the latter is
+/// overwritten by the 64-bit size when the media data outgrows 32 bits, QTFF "wide" atom convention)
+pub open spec fn mdat_placeholder_bytes() -> Seq<u8> {
+    hdr_bytes(8, 0x6d646174) + hdr_bytes(8, 0x77696465)
+}
+
+pub open spec fn ftyp_of_config(c: Mp4Config) -> FtypBox {
+    FtypBox { major_brand: c.major_brand, minor_version: c.minor_version, compatible_brands: c.compatible_brands }
+}
+
+pub proof fn lemma_movie_ticks_mono(d1: u64, d2: u64, mts: u32, ts: u32)
+    requires d1 <= d2, ts >= 1
+    ensures movie_ticks(d1, mts, ts) <= movie_ticks(d2, mts, ts)
+{
+    let a = d1 as int * mts as int;
+    let b = d2 as int * mts as int;
+    assert(a <= b) by(nonlinear_arith) requires d1 <= d2, mts >= 0, a == d1 as int * mts as int, b == d2 as int * mts as int;
+    assert(a / (ts as int) <= b / (ts as int)) by(nonlinear_arith) requires a <= b, ts >= 1;
+}
+
+/// ftyp_bytes only looks at the values, not at the identity of the vector
+pub proof fn lemma_ftyp_prefix_congr(a: FtypBox, b: FtypBox, n: int)
+    requires a.major_brand == b.major_brand, a.minor_version == b.minor_version, a.compatible_brands@ == b.compatible_brands@,
+             0 <= n <= a.compatible_brands@.len()
+    ensures ftyp_prefix(a, n) == ftyp_prefix(b, n)
+    decreases n
+{
+    if n > 0 { lemma_ftyp_prefix_congr(a, b, n - 1); }
+}
+
+/// observational equality of two movie writers (vectors compared by content)
+pub open spec fn mw_same<W>(a: Mp4Writer<W>, b: Mp4Writer<W>) -> bool {
+    a.tracks@ == b.tracks@ && a.writer == b.writer && a.mdat_pos == b.mdat_pos && a.timescale == b.timescale && a.duration == b.duration
+}
+
+/// C13: media data up to 4 GiB-1 keeps the 32-bit size field; beyond that the size field becomes 1 and the 64-bit size
+/// overwrites exactly the 8 bytes of the 'wide' placeholder that follows the 8-byte mdat header. Nothing else changes.
+pub open spec fn mdat_size_patch(d: Seq<u8>, mdat_pos: int, size: int) -> Seq<u8> {
+    if size > 0xffff_ffff {
+        wr(wr(d, mdat_pos, be_bytes(1, 4)), mdat_pos + 8, be_bytes(size as nat, 8))
+    } else {
+        wr(d, mdat_pos, be_bytes(size as nat, 4))
+    }
+}
